@@ -22,7 +22,10 @@ RULE = (
     "x fault position P1 (before login; login reply pending; after the client wrote k of its post-login frames, k "
     "enumerated; idle; download connecting / stalled; search with timeout pending; potential-parent connect slow / "
     "hanging) x fault (none | requested = Network.disconnect_server | server EOF | server reset | write blocked -> "
-    "TIMEOUT | write error | stop()) x stop position P2 (dt after the loss was detected incl. 0 = from a listener of "
+    "TIMEOUT | write error | stop()) x who performs the write that meets a blocked / failing transport (user command | "
+    "periodic server ping | periodic wishlist job after WishlistInterval(2) with one wishlist item | queued message) x "
+    "server outage (the first k = 0..3 reconnect attempts are refused | hang until the connect timeout | are reset "
+    "right after the accept, later ones succeed) x stop position P2 (dt after the loss was detected incl. 0 = from a listener of "
     "the CLOSED event, inside the watchdog wait, around the reconnect; when the reconnect starts connecting; after k "
     "frames of the automatic re-login; at the end). A real SoulSeekClient runs against the simulated server on the "
     "virtual loop; the fault positions are enumerated, the settings are enumerated one feature at a time and generated "
@@ -33,7 +36,10 @@ RULE = (
     "followed by exactly one SessionDestroyedEvent for that session; 0.1 s after a loss and after stop() no known user "
     "carries server-derived data, no room is known, neither the own user nor a friend is considered tracked, the five "
     "server-sent distributed parameters are None, and no library task waits for itself; (4) a new connect and Login "
-    "follow within reconnect.timeout + 1 s iff reconnect.auto and the loss was a reset / write error / timeout; (5) "
+    "follow within reconnect.timeout + 1 s iff reconnect.auto and the loss was a reset / write error / timeout, and "
+    "after k failed attempts the connection and the Login follow within (k+1) x (reconnect.timeout + 1 s + attempt "
+    "duration) + 1 s of the loss; a loss the client noticed (CLOSING) is completed (CLOSED) within 8 s and every "
+    "listener of the CLOSED event is reached; (5) "
     "after stop() returned and 1000 virtual seconds: no connect was started and no connection got established after "
     "the return, every client-side socket and listening port is closed, the server received nothing, no task other "
     "than the driver's is pending. Non-trivial = non-default configuration, a login that does not succeed, or a "
@@ -564,6 +570,30 @@ def _run(c, tmp, res):
         client.events.register(ConnectionStateChangedEvent, on_state, priority=0)
         client.events.register(SessionInitializedEvent, on_init, priority=0)
         client.events.register(SessionDestroyedEvent, on_destroy, priority=0)
+        # ... and last: a listener chain that is cut (exception / cancellation inside a library listener) shows as a
+        # state change that the first listener saw and the last one did not
+        last_seen = collections.Counter()
+
+        async def on_state_last(ev):
+            if isinstance(ev.connection, ServerConnection):
+                last_seen[ev.state.name] += 1
+        client.events.register(ConnectionStateChangedEvent, on_state_last, priority=10 ** 6)
+
+        async def check_chain_cut(where):
+            if flags['contaminated']:
+                return True
+            if last_seen['CLOSED'] < n_state['CLOSED']:
+                await asyncio.sleep(0.01)       # a chain that is merely suspended gets time to finish
+            if last_seen['CLOSED'] < n_state['CLOSED']:
+                who = c['writer'] if (fault in ('timeout', 'write_error') and point in TIMED_POINTS) else point
+                violate(f'C16/closed-listeners-cut:{who}',
+                        f'{where}: the server connection reported CLOSED {n_state["CLOSED"]}x but only '
+                        f'{last_seen["CLOSED"]}x reached the last listener: the listener chain was cut (the task that '
+                        f'runs disconnect() is cancelled by the close handling); sessions initialised {len(inits)} / '
+                        f'destroyed {len(destroys)}, client.session is {"set" if client.session else "None"}')
+                flags['contaminated'] = 'closed-listeners-cut'
+                return True
+            return False
 
         flags = {'contaminated': None}
 
@@ -599,7 +629,7 @@ def _run(c, tmp, res):
                     stop_info['exc'] = exc
                 stop_info['t_ret'] = loop.time()
                 trace.append((round(loop.time(), 4), 'stop() returned'))
-                if not check_deadlock('when stop() returned'):
+                if not check_deadlock('when stop() returned') and not await check_chain_cut('when stop() returned'):
                     await probe_no_session('after-stop')
             stop_info['where'] = where
             stop_info['t_call'] = loop.time()
@@ -886,7 +916,8 @@ def _run(c, tmp, res):
             await asyncio.sleep(max(0.0, t_loss + 0.1 - loop.time()))
             if not stopping() and len(attempts_to_server(attempts)) == len([a for a in attempts_to_server(attempts)
                                                                              if a[0] <= t_loss]):
-                if not check_deadlock(f'0.1 s after the {fault} loss'):
+                if not check_deadlock(f'0.1 s after the {fault} loss') and \
+                        not await check_chain_cut(f'0.1 s after the {fault} loss'):
                     await probe_no_session('after-loss')
                     check_destroyed('after-loss')
                     check_cleared('after-loss')
@@ -1207,6 +1238,11 @@ KNOWN_REPLAYS = {
     # race mode: the same two causes seen through the direct-connect task of the uncancelled connection request
     # (potential parent: fix C16-3, orphaned _queue_remotely: fix C16-5)
     'C16/connection-opened-after-stop:direct-connect': {'p1': {'point': 'parent', 'var': 'slow'}},
+    # the write that notices the loss is made by a task that the CLOSING handling cancels (ping job, wishlist job, queued
+    # message): the pending cancellation cuts the chain of CLOSED listeners (fix C16-6)
+    'C16/closed-listeners-cut:ping': {'p1': {'writer': 'ping'}, 'fault': 'write_error'},
+    'C16/closed-listeners-cut:wishlist': {'p1': {'writer': 'wishlist'}, 'fault': 'write_error'},
+    'C16/closed-listeners-cut:queued': {'p1': {'writer': 'queued'}, 'fault': 'write_error'},
     # session handlers of a login() in flight while stop() runs start tracking tasks after UserManager.stop() (no fix)
     'C16/task-pending-after-stop:tracking-started-by-login-in-flight': {'p1': {'point': 'burst', 'k': 1}, 'fault': 'stop'},
 }
